@@ -50,7 +50,7 @@ def cases(tier, rng, schema, feats):
             for _ in range(2):
                 add(flavour, rp, 0x81, rng.below(2**32), "-", gen.show(g.named_val(t, present=sub, focus=True)))
     # attested credential data across the capacity frontier: 37 + aaguid + 2 + id + key (+ ext) vs 676
-    for keylen in (0, 1, 77, 100, 256):
+    for keylen in (0, 1, 77, 100, 255, 256, 257, 258, 300, 512, 600):
         for aag in (16, 0, 17):
             frontier = 676 - 37 - aag - 2 - keylen
             ids = set(range(max(0, frontier - 3), frontier + 4)) | {0, 1, 2, 255, 256, 300, 544, 545, 700}
